@@ -1,6 +1,7 @@
 import Apko.Model.Resolver
 import Apko.Model.Glue
 import Apko.Model.Alias
+import Apko.Generated.TransResolver
 /-! line-protocol handlers for corr:resolver / multiarch (C02, C14, C08) -/
 namespace Apko.Driver.Resolver
 open Apko Apko.Resolver
@@ -276,9 +277,64 @@ def handleGlue (args : List String) : Option String :=
     | _ => some "bad-universe\tfail:bad-universe\tunlisted"
   | _ => none
 
+/-! ### ops `t.*`: the check on the Go → Lean translator (extract/trans.go)
+
+The real Go function and its regenerated translation `Generated.Trans.f` are evaluated on the same input:
+`impl` is the translation's answer (Go must equal it, otherwise the translator or its whitelist is wrong),
+`spec` is the hand-written model's answer (the function the property theorems are about; equal to the
+translation for all inputs by `Proofs/TransResolver.lean` as long as that file checks).
+A package travels as `xname:xversion:xorigin:xrepo:xpin:priority:provides`. -/
+
+def readPkg (id : Nat) (s : String) : Option Pkg :=
+  match s.splitOn ":" with
+  | [name, ver, origin, repo, pin, prio, provs] =>
+    some ⟨id, str name, str ver, str origin, str repo, str pin, prio.toNat!, [], strList provs, []⟩
+  | _ => none
+
+/-- `existing` travels as `xname:xversion,…` (the comparator reads nothing else of the mapped package) -/
+def readExisting (s : String) : List (Text × Pkg) :=
+  if s.isEmpty then [] else
+  (s.splitOn ",").filterMap fun e =>
+    match e.splitOn ":" with
+    | [n, v] => some (str n, { (default : Pkg) with name := str n, version := str v })
+    | _ => none
+
+def showOB : Option Bool → String
+  | none => "panic" | some true => "true" | some false => "false"
+
+def handleTrans (args : List String) : Option String :=
+  match args with
+  | ["t.cmp", name, pin, existing, origins, cmp, a, b] =>
+    match readPkg 0 a, readPkg 1 b with
+    | some pa, some pb =>
+      let ex := readExisting existing
+      let og := strList origins
+      let compare : Option Pkg := match cmp.splitOn ":" with
+        | [repo, origin] => some { (default : Pkg) with repo := str repo, origin := str origin }
+        | _ => none
+      let tr := Generated.Trans.comparePackages compare (str name) ex og (str pin) pa pb
+      -- the model has no `compare` (every call site passes nil): with one, only the translation is checked
+      let model := if compare.isNone then Trans.ordInt (comparePackages .eq (str name) (str pin) ex og pa pb) else tr
+      some (toString tr ++ "\t" ++ toString model ++ "\tunlisted")
+    | _, _ => some "bad-pkg\tbad-pkg\tunlisted"
+  | ["t.gdv", name, a] =>
+    match readPkg 0 a with
+    | some pa =>
+      some (enc (Generated.Trans.getDepVersionForName pa (str name)) ++ "\t" ++
+        enc (getDepVersionForName pa (str name)) ++ "\tunlisted")
+    | none => some "bad-pkg\tbad-pkg\tunlisted"
+  | ["t.cv", con, a] =>
+    match readPkg 0 a with
+    | some pa =>
+      let c := parseConstraint (str con)
+      some (showOB (Generated.Trans.conflictingVersion c pa) ++ "\t" ++ showOB (conflictingVersion c pa) ++ "\tunlisted")
+    | none => some "bad-pkg\tbad-pkg\tunlisted"
+  | _ => none
+
 def handle (args : List String) : Option String :=
   match args with
-  | op :: _ => if op.startsWith "g." then handleGlue args else handleCore args
+  | op :: _ => if op.startsWith "g." then handleGlue args else if op.startsWith "t." then handleTrans args
+               else handleCore args
   | [] => none
 
 end Apko.Driver.Resolver
